@@ -409,6 +409,10 @@ class Program:
                 rs = [self.resolve_name_expr(m, v) if isinstance(v, (ast.Name, ast.Attribute)) else None for v in vals]
                 if rs and all(isinstance(r, ClassInfo) for r in rs):
                     class_vars.setdefault(node.targets[0].id, []).extend(rs)
+                elif len(vals) == 1:
+                    ct = self.class_table(fn, vals[0])
+                    if ct is not None:
+                        class_vars.setdefault(node.targets[0].id, []).extend(ct[0])
         for node in ast.walk(fn.node):
             if isinstance(node, ast.Assign) and len(node.targets) == 1:
                 t = node.targets[0]
@@ -418,6 +422,10 @@ class Program:
                         cands.setdefault(t.id, []).append(r)
                     elif isinstance(node.value.func, ast.Name) and node.value.func.id in class_vars:
                         cands.setdefault(t.id, []).extend(class_vars[node.value.func.id])
+                    else:
+                        ct = self.class_table(fn, node.value.func)
+                        if ct is not None:
+                            cands.setdefault(t.id, []).extend(ct[0])
         # locals bound to an attribute chain of known type:  f_logger = self.function_logger
         for _round in range(2):
             cur = {k: v[0] for k, v in cands.items() if v}
@@ -439,6 +447,59 @@ class Program:
             if common is not None:
                 out[k] = common
         return out
+
+    def class_table(self, fn: FunctionInfo, expr: ast.AST):
+        """``T[<index>]`` / ``T.get(<key>)`` where T is a literal tuple / list / dict of package classes (written in place,
+        bound once in the function, at module level, or in the class body as ``self.T`` / ``cls.T`` / ``Class.T``)
+        -> (list of ClassInfo in table order, keys or None, the table literal) or None."""
+        if isinstance(expr, ast.Call) and isinstance(expr.func, ast.Attribute) and expr.func.attr == "get" and expr.args:
+            t = expr.func.value
+        elif isinstance(expr, ast.Subscript):
+            t = expr.value
+        else:
+            return None
+        lit = None
+        if isinstance(t, (ast.Tuple, ast.List, ast.Dict)):
+            lit = t
+        elif isinstance(t, ast.Name):
+            defs = [n.value for n in ast.walk(fn.node) if isinstance(n, ast.Assign) and len(n.targets) == 1 and isinstance(n.targets[0], ast.Name) and n.targets[0].id == t.id]
+            stores = [n for n in ast.walk(fn.node) if isinstance(n, ast.Name) and n.id == t.id and not isinstance(n.ctx, ast.Load)]
+            if len(defs) == 1 and len(stores) == 1:
+                lit = defs[0]
+            elif not stores and t.id not in fn.params:
+                for st in fn.module.node.body:
+                    if isinstance(st, ast.Assign) and len(st.targets) == 1 and isinstance(st.targets[0], ast.Name) and st.targets[0].id == t.id:
+                        lit = st.value
+        elif isinstance(t, ast.Attribute) and isinstance(t.value, ast.Name):
+            owner = None
+            if t.value.id in ("self", "cls") and fn.cls is not None:
+                owner = fn.cls
+            else:
+                r = self.resolve_name_expr(fn.module, t.value)
+                owner = r if isinstance(r, ClassInfo) else None
+            if owner is not None:
+                # a class-body constant that no method re-binds
+                rebound = any(
+                    isinstance(n, ast.Attribute) and n.attr == t.attr and not isinstance(n.ctx, ast.Load)
+                    for c in self.classes()
+                    for n in ast.walk(c.node)
+                )
+                if not rebound:
+                    for c in owner.mro():
+                        hit = [st.value for st in c.node.body if isinstance(st, ast.Assign) and len(st.targets) == 1 and isinstance(st.targets[0], ast.Name) and st.targets[0].id == t.attr]
+                        if hit:
+                            lit = hit[-1]
+                            break
+        if isinstance(lit, ast.Dict):
+            elts, keys = lit.values, lit.keys
+        elif isinstance(lit, (ast.Tuple, ast.List)):
+            elts, keys = lit.elts, None
+        else:
+            return None
+        rs = [self.resolve_name_expr(fn.module, e) if isinstance(e, (ast.Name, ast.Attribute)) else None for e in elts]
+        if not rs or not all(isinstance(r, ClassInfo) for r in rs):
+            return None
+        return rs, keys, lit
 
     def expr_class(self, fn: FunctionInfo, expr: ast.AST, ltypes=None) -> Optional[ClassInfo]:
         """Static class of an expression, when inferable."""
